@@ -31,6 +31,12 @@ func init() {
 				x.defStrList(m+"Assigns", x.assigns(fd))
 			}
 		}
+		// globMatch: g.Match(s) under a recover that turns a panic of the library into "no match"
+		if fd := x.funcDecl("route", "", "globMatch"); fd != nil {
+			x.defStrList("globMatchReturns", x.returns(fd))
+			x.defStrList("globMatchAssigns", x.assigns(fd))
+			x.defNat("globMatchRecovers", uint64(len(x.calls(fd, "recover"))))
+		}
 		// 3. the order of a host's routes
 		if fd := x.funcDecl("route", "Routes", "Less"); fd != nil {
 			x.defStrList("lessReturns", x.returns(fd))
